@@ -144,6 +144,8 @@ def run_numpy(res: Result, dim, system):
             nonzero = np.any(carts != 0, axis=-1)
             scale = float(np.sum(np.abs(carts))) if n else 1.0
             axes = [None] + list(range(len(shape))) + [-1]
+            if len(shape) >= 2:  # tuple axes, with and without negative members
+                axes += [(0, 1), (0, -1), (-2, -1), (1,), (-1,)] + ([(0, 2), (-1, 0), (0, 1, 2)] if len(shape) == 3 else [])
             for axis in axes:
                 for keepdims in (False, True):
                     for red in ("numpy.sum", ".sum()", "numpy.count_nonzero"):
@@ -169,7 +171,8 @@ def run_numpy(res: Result, dim, system):
                                 res.violation(f"count|{cls}", f"count_nonzero = {np.asarray(r).tolist()}, number of non-zero vectors = {np.asarray(want).tolist()}", case)
                                 continue
                         else:
-                            want = np.sum(carts, axis=(axis if axis is None or axis >= 0 else len(shape) + axis) if axis is not None else tuple(range(len(shape))), keepdims=keepdims)
+                            norm_axis = tuple(range(len(shape))) if axis is None else tuple(a_ % len(shape) for a_ in axis) if isinstance(axis, tuple) else (axis % len(shape) if len(shape) else axis)
+                            want = np.sum(carts, axis=norm_axis, keepdims=keepdims)
                             if not isinstance(r, vector.backends.numpy.VectorNumpy) and not isinstance(r, vector.backends.object.VectorObject):
                                 res.violation(f"type|{cls}", f"{red} returned {type(r).__name__}", case)
                                 continue
